@@ -109,10 +109,7 @@ func (b *Builder) build(t reflect.Type, depth int, field string) reflect.Value {
 	case reflect.Struct:
 		for i := 0; i < t.NumField(); i++ {
 			f := t.Field(i)
-			if !f.IsExported() {
-				continue
-			}
-			v.Field(i).Set(b.build(f.Type, depth+1, f.Name))
+			fieldAt(v, i).Set(b.build(f.Type, depth+1, f.Name))
 		}
 	case reflect.Pointer:
 		if exhausted || b.C.Int(0, 4, "ptr-nil") == 0 {
@@ -224,19 +221,16 @@ func (b *Builder) keyStruct(t reflect.Type, i, depth int) reflect.Value {
 	first := true
 	for f := 0; f < t.NumField(); f++ {
 		ft := t.Field(f)
-		if !ft.IsExported() {
-			continue
-		}
 		switch {
 		case first && (ft.Type.Kind() == reflect.Int || ft.Type.Kind() == reflect.Int64) && ft.Name != "ID":
-			v.Field(f).SetInt(int64(100 + i))
+			fieldAt(v, f).SetInt(int64(100 + i))
 			first = false
 		case ft.Type.Kind() == reflect.Pointer:
 			p := reflect.New(ft.Type.Elem())
 			p.Elem().Set(b.build(ft.Type.Elem(), depth+1, ft.Name))
-			v.Field(f).Set(p)
+			fieldAt(v, f).Set(p)
 		default:
-			v.Field(f).Set(b.build(ft.Type, depth+1, ft.Name))
+			fieldAt(v, f).Set(b.build(ft.Type, depth+1, ft.Name))
 		}
 	}
 	return v
@@ -260,6 +254,29 @@ func (b *Builder) remember(t reflect.Type, v reflect.Value) {
 	if b.Share {
 		b.pool[t] = append(b.pool[t], v)
 	}
+}
+
+// ---- access to all struct fields (unexported ones through unsafe) -----------------------
+
+// addressable returns v itself when it can be addressed, else a copy that can (pointers,
+// slices and maps inside still refer to the same memory).
+func addressable(v reflect.Value) reflect.Value {
+	if v.CanAddr() {
+		return v
+	}
+	c := reflect.New(v.Type()).Elem()
+	c.Set(v)
+	return c
+}
+
+// fieldAt returns field i of an ADDRESSABLE struct value in a form that can be read and —
+// if the struct is settable memory — written, also for unexported fields.
+func fieldAt(v reflect.Value, i int) reflect.Value {
+	f := v.Field(i)
+	if v.Type().Field(i).IsExported() {
+		return f
+	}
+	return reflect.NewAt(f.Type(), unsafe.Pointer(f.UnsafeAddr())).Elem()
 }
 
 // ---- deep clone / equality ------------------------------------------------------------
@@ -295,10 +312,9 @@ func Clone(v reflect.Value) reflect.Value {
 		}
 		return m
 	case reflect.Struct:
+		av := addressable(v)
 		for i := 0; i < v.NumField(); i++ {
-			if v.Type().Field(i).IsExported() {
-				out.Field(i).Set(Clone(v.Field(i)))
-			}
+			fieldAt(out, i).Set(Clone(fieldAt(av, i)))
 		}
 		return out
 	case reflect.Array:
@@ -382,11 +398,9 @@ func equal(a, b reflect.Value, path string) (bool, string) {
 		}
 		return true, ""
 	case reflect.Struct:
+		aa, ab := addressable(a), addressable(b)
 		for i := 0; i < a.NumField(); i++ {
-			if !a.Type().Field(i).IsExported() {
-				continue
-			}
-			if ok, p := equal(a.Field(i), b.Field(i), path+"."+a.Type().Field(i).Name); !ok {
+			if ok, p := equal(fieldAt(aa, i), fieldAt(ab, i), path+"."+a.Type().Field(i).Name); !ok {
 				return false, p
 			}
 		}
@@ -507,10 +521,9 @@ func Regions(v reflect.Value) []Region {
 				walk(v.MapIndex(k), fmt.Sprintf("%s[%s]", path, keyText(k)))
 			}
 		case reflect.Struct:
+			av := addressable(v)
 			for i := 0; i < v.NumField(); i++ {
-				if v.Type().Field(i).IsExported() {
-					walk(v.Field(i), path+"."+v.Type().Field(i).Name)
-				}
+				walk(fieldAt(av, i), path+"."+v.Type().Field(i).Name)
 			}
 		case reflect.Array:
 			for i := 0; i < v.Len(); i++ {
@@ -578,9 +591,7 @@ func Scribble(v reflect.Value) {
 			v.SetString(v.String() + "!scribbled")
 		case reflect.Struct:
 			for i := 0; i < v.NumField(); i++ {
-				if v.Type().Field(i).IsExported() {
-					all(v.Field(i))
-				}
+				all(fieldAt(v, i))
 			}
 		case reflect.Array:
 			for i := 0; i < v.Len(); i++ {
@@ -621,10 +632,9 @@ func Scribble(v reflect.Value) {
 				v.SetMapIndex(k, e)
 			}
 		case reflect.Struct:
+			av := addressable(v)
 			for i := 0; i < v.NumField(); i++ {
-				if v.Type().Field(i).IsExported() {
-					reach(v.Field(i))
-				}
+				reach(fieldAt(av, i))
 			}
 		case reflect.Array:
 			for i := 0; i < v.Len(); i++ {
